@@ -33,7 +33,8 @@
 //   operations.  `steps: null` = calibration: never inject, report how many turns the injector
 //   took until the response arrived.
 //   {"kind":"proxy","pre":[op..],"ops":[op..],"steps":n|null,"up_replies":[reply..]}
-//   `up_replies` scripts the upstream mock host like "replies" above.
+//   `up_replies` scripts the upstream mock host like "replies" above; "client_auth":[v..] makes the
+//   client's own request carry x-ms-azure-host-authorization header lines with these values.
 //
 // kind "latch" -- pairing at LATCH time: the REAL key keeper (`KeyKeeper::new` +
 //   `poll_secure_channel_status`, fresh `SharedState::start_all()`) polls an in-process mock of the
@@ -469,8 +470,16 @@ async fn run_proxy(sc: &Value) -> Value {
         Err(e) => return json!({"ok": false, "error": format!("connect proxy: {}", e)}),
     };
     let body = b"0123456789";
+    // optionally the client itself supplies authorization header values (one line each)
+    let mut client_auth = String::new();
+    for v in sc.get("client_auth").and_then(|x| x.as_array()).cloned().unwrap_or_default() {
+        if let Some(t) = v.as_str() {
+            client_auth.push_str(&format!("x-ms-azure-host-authorization: {}\r\n", t));
+        }
+    }
     let head = format!(
-        "POST /c10/resource?comp=probe HTTP/1.1\r\nHost: 127.0.0.1\r\nx-ms-version: 2012-11-30\r\nContent-Length: {}\r\n\r\n",
+        "POST /c10/resource?comp=probe HTTP/1.1\r\nHost: 127.0.0.1\r\nx-ms-version: 2012-11-30\r\n{}Content-Length: {}\r\n\r\n",
+        client_auth,
         body.len()
     );
     let mut first = head.into_bytes();
